@@ -1,0 +1,19 @@
+//go:build verif
+
+package zuc
+
+// Thin aliases of unexported functions, for the differential verification harness only.
+
+func VerifL1(x uint32) uint32 { return l1(x) }
+func VerifL2(x uint32) uint32 { return l2(x) }
+
+// VerifLfsrState runs one LFSR update on the given 16 cells.
+func VerifLfsrState(s [16]uint32, init bool, u uint32) [16]uint32 {
+	l := &Lfsr{s: s}
+	mode := "WorkMode"
+	if init {
+		mode = "InitialisationMode"
+	}
+	l.state(mode, u)
+	return l.s
+}
